@@ -196,12 +196,20 @@ def run(sim: Sim) -> None:
             # iff it WAS set or revealed); if it is accepted the handle is not modelled any further in this run
             i = sim.choose(N, "bad-coal")
             bad_value = sim.pick(["n/a", [1.0, 2.0], {"v": 1}], "bad-value")
-            which = sim.pick(["set_value", "reveal_value"], "bad-op")
+            which = sim.pick(["set_value", "reveal_value", "set_values of a subset", "set_values of a wrong length"], "bad-op")
             if not (which == "reveal_value" and i in h.known):
                 before_bad = table(h.g)
                 sim.op("unusable-value", hi, which, i)
                 try:
-                    getattr(h.g, which)(bad_value, games.coalition(i))
+                    if which == "set_values of a subset":  # one entry of the bulk call is not a number
+                        ids = sorted({i, sim.choose(N, "bad-coal-2")})
+                        vals = [value(sim) for _ in ids]
+                        vals[sim.choose(len(vals), "bad-position")] = bad_value if not isinstance(bad_value, dict) else "n/a"
+                        h.g.set_values(vals, games.coalitions(ids))
+                    elif which == "set_values of a wrong length":  # whole-game call with a vector of another game size
+                        h.g.set_values(np.arange(2 * N + 1, dtype=np.float64))
+                    else:
+                        getattr(h.g, which)(bad_value, games.coalition(i))
                     accepted = True
                 except Exception:
                     accepted = False
